@@ -31,6 +31,8 @@ GOLDEN = os.path.join(core.HERE, "golden", "c11_mementos.json")
 
 
 def cases(tier, seed):
+    if tier in ("thorough",):
+        yield {"kind": "repo_tests"}
     n = 50 if tier == "quick" else 2000
     for i in range(n):
         yield {"seed": seed, "idx": i, "count": 100}
@@ -276,6 +278,10 @@ def summary(m):
 
 
 def run_case(case):
+    if case.get("kind") == "repo_tests":
+        from vf import repotests
+
+        return repotests.as_case_result(repotests.run_suite_with_monitors(), "C11", "documents_schema_checked")
     from twosigma.memento.serialization import MementoCodec
     import vf.ffuncs  # noqa: F401  (functions referenced by the generated mementos)
 
